@@ -70,7 +70,10 @@ def amuset_case(draw):
             'threshold': draw(st.sampled_from([0, 1e-12, 1e-10])), 'as_list': draw(st.booleans()), 'data_form': form,
             # the optional extra outputs of the HOSVD variant (eigenfunctions at the snapshots, singular tensors) must not change
             # the two documented ones
-            'extras': draw(st.sampled_from(['none', 'none', 'ef', 'st', 'both']))}
+            'extras': draw(st.sampled_from(['none', 'none', 'ef', 'st', 'both'])),
+            # the same basis-function objects have been used before, in a call on another data matrix (several trajectories analysed
+            # one after the other with one basis list)
+            'basis_used_before': draw(st.sampled_from([False, False, True]))}
 
 
 def reference(Psi, xi, yi):
@@ -141,6 +144,13 @@ def body(c):
     pairs = c['pairs']
     X = [np.array(p[0], dtype=int) for p in pairs]
     Y = [np.array(p[1], dtype=int) for p in pairs]
+    if c.get('basis_used_before'):
+        other = np.array(np.asarray(x)[:, ::-1], dtype=np.asarray(x).dtype) * (1 if np.asarray(x).dtype.kind in 'iu' else 0.75)
+        try:
+            run(c, other, phi, X[0], Y[0])
+        except Exception:     # noqa -- the earlier call is only history (its data are not guarded); the call under test is the next one
+            pass
+        lab.add('basis_used_before')
     if len(pairs) > 1 or c['as_list']:
         evs, ets = run(c, x, phi, list(X), list(Y))
         if len(pairs) == 1:
